@@ -802,7 +802,11 @@ func (fi *fileInst) call(c *ast.CallExpr) {
 		if pn, ok2 := fi.info.Uses[id].(*types.PkgName); ok2 {
 			if fi.cfg.TimerJitter && pn.Imported().Path() == "time" && len(c.Args) >= 1 &&
 				(sel.Sel.Name == "NewTimer" || sel.Sel.Name == "NewTicker" || sel.Sel.Name == "After" || sel.Sel.Name == "AfterFunc") {
-				fi.insert(c.Args[0].Pos(), "zzsimrt.Jitter(")
+				fn := "zzsimrt.Jitter("
+				if sel.Sel.Name == "NewTicker" {
+					fn = "zzsimrt.JitterTick("
+				}
+				fi.insert(c.Args[0].Pos(), fn)
 				fi.insertAfter(c.Args[0].End(), ")")
 				fi.nsites++
 			}
